@@ -534,6 +534,7 @@ pub fn gen_cfg(r: &mut Rng, budget: u64) -> SimCfg {
         link_down,
         shuffle_phases: r.chance(1, 2),
         skip_send_pct: *r.pick(&[0u64, 0, 25, 50]),
+        library_default: false,
     }
 }
 
